@@ -87,7 +87,12 @@ pub fn gen_arguments(ast_ty: &ASTTy, gen_args: &GenArguments, ctx: &Context) -> 
     let import = &mut Imports::new();
     match convert_node(ast_ty, import, &state, ctx)? {
         Core::Block { statements } => Ok(Core::Block {
-            statements: import.imports().into_iter().chain(statements).collect(),
+            statements: import
+                .imports()
+                .into_iter()
+                .filter(|import| !statements.contains(import)) // user already has this very import
+                .chain(statements.clone())
+                .collect(),
         }),
         other if !import.is_empty() => Ok(Core::Block {
             statements: import.imports().into_iter().chain(vec![other]).collect(),
